@@ -79,10 +79,13 @@ fn main() {
         Some("replay") if args.len() >= 3 => orch::cmd_replay(&args[2]),
         // Miri tier (run under `cargo +nightly miri run`): in-process, no fork,
         // SimAlloc compiled out — Miri's abstract machine is the allocator model.
-        Some("miri") if args.len() >= 5 => {
+        Some("dump-traces") if args.len() >= 5 => {
             let Some(prop) = Prop::from_id(&args[2]) else { std::process::exit(usage()) };
             let base = args.get(5).and_then(|v| v.parse().ok()).unwrap_or(orch::DEFAULT_SEED);
-            let code = orch::cmd_miri(prop, base, args[3].parse().expect("directed stride"), args[4].parse().expect("seeded count"));
+            orch::cmd_dump_traces(prop, base, args[3].parse().expect("directed stride"), args[4].parse().expect("seeded count"))
+        }
+        Some("miri-file") if args.len() >= 3 => {
+            let code = orch::cmd_miri_file(&args[2]);
             if code == 0 {
                 return; // let Miri run its end-of-program leak check
             }
